@@ -14,7 +14,7 @@ import (
 // real planner; the executor is a harness fake behind the repository's interface).
 
 const vS8 = `
-type Query { a: String b: String }
+type Query { a: String legacy: String @deprecated(reason: "use b") b: String }
 type Mutation { m: String }
 `
 
@@ -55,7 +55,7 @@ type vReq8 struct {
 func vPool8(i int) vReq8 {
 	tag := "t" + verifItoa(i)
 	vars := func(mode string) map[string]interface{} { return map[string]interface{}{"t": tag, "mode": mode} }
-	switch verifChoice("class"+verifItoa(i), verifParam("classes", 11)) {
+	switch verifChoice("class"+verifItoa(i), verifParam("classes", 12)) {
 	case 0:
 		return vReq8{Query: `{ a }`, Variables: vars("ok")}
 	case 1:
@@ -67,7 +67,7 @@ func vPool8(i int) vReq8 {
 	case 4:
 		return vReq8{Query: `{ a }`, Variables: vars("planerr")}
 	case 5:
-		return vReq8{Query: `{ __schema { queryType { name } } }`, Variables: vars("ok")}
+		return vReq8{Query: `{ __schema { queryType { name } } __type(name: "Query") { fields { name } } }`, Variables: vars("ok")}
 	case 6:
 		return vReq8{Query: `mutation { m }`, Variables: vars("ok")}
 	case 7:
@@ -76,6 +76,8 @@ func vPool8(i int) vReq8 {
 		return vReq8{Query: `query A { a } query B { b }`, Variables: vars("ok")}
 	case 9:
 		return vReq8{Query: `query A { a }`, Variables: vars("ok"), OperationName: "Nope"}
+	case 11:
+		return vReq8{Query: `{ legacy b }`, Variables: vars("ok")}
 	}
 	return vReq8{Query: `{ a }`, Variables: vars("partial")}
 }
@@ -97,12 +99,11 @@ func VerifBatch() {
 	for i := range reqs {
 		reqs[i] = vPool8(i)
 	}
-	gw := vGateway8()
-	// what each operation receives when it is sent alone
+	// what each operation receives when it is sent alone, to a gateway of its own
 	alone := make([]interface{}, R)
 	for i := range reqs {
 		b, _ := json.Marshal(reqs[i])
-		rec := vPostRaw(gw, "application/json", b)
+		rec := vPostRaw(vGateway8(), "application/json", b)
 		var out interface{}
 		verifAssert(json.Unmarshal(rec.body, &out) == nil, "a single operation is answered with one JSON document")
 		alone[i] = out
@@ -113,6 +114,7 @@ func VerifBatch() {
 	} else {
 		body, _ = json.Marshal(reqs[0])
 	}
+	gw := vGateway8()
 	rec := vPostRaw(gw, "application/json", body)
 	verifAssert(rec.code == 200, "status 200")
 	var out interface{}
